@@ -33,6 +33,9 @@ typedef struct {
 //   P:<preset>   (only for the easy encoder / as an update chain: the preset's LZMA2)
 // Returns false on a malformed spec (machinery error, never a verdict).
 bool chain_parse(chain_t *c, const char *spec);
+// "id:props/id:props" (props as lzma_properties_encode gives them, hex, "-" if none) as it appears in a Block Header;
+// returns false if the chain cannot be put into a Block Header.
+bool chain_header_string(const chain_t *c, char *buf, size_t n);
 
 // ---- framing walker (independent of liblzma's decoders: pure LZMA2 / .xz framing) -----------------
 // Result of walking an LZMA2 chunk sequence starting at p[0..n).
@@ -52,6 +55,7 @@ typedef struct {
 	uint64_t hsize, usize, csize;     // header size, uncompressed size (sum of chunks), compressed size incl. end marker
 	uint64_t total;                   // header + csize + padding + check
 	bool complete;
+	char filters[160];                // "id:props/id:props" as found in the Block Header
 	lzma2_walk_t w;
 } xz_block_t;
 
